@@ -314,7 +314,7 @@ static int ratom_match(struct ratom *ra, struct rstate *rs)
 	}
 	if (ra->ra == RA_BRK) {
 		int c = uc_dec(rs->s);
-		if (!c || (c == '\n' && !!(rs->flg & REG_NEWLINE) && ra->s[1] == '^'))
+		if (!c || (c == '\n' && !!(rs->flg & REG_NEWLINE)))
 			return 1;
 		rs->s += uc_len(rs->s);
 		return brk_match(ra->s + 1, c, rs->flg);
